@@ -3,7 +3,7 @@ from hypothesis import strategies as st
 
 from . import engine
 from .blueprint import chance
-from vx.sim import EMBEDDINGS
+from vx.sim import EMBEDDINGS, EMBEDDINGS_MUTATING
 
 
 @st.composite
@@ -26,6 +26,8 @@ def engine_cases(
     tok_pct=60,
     max_sched=60,
     hetero=True,
+    preout_pct=0,
+    stage2_pct=0,
 ):
     ntok = draw(st.integers(0, tokens)) if tokens else 0
     toks = []
@@ -34,18 +36,23 @@ def engine_cases(
         toks.append({"kind": kind, "total": draw(st.integers(1, 4))})
     n = draw(st.integers(1, max_jobs))
     jobs = []
+    # pre-tasks attached to upstream outputs change those objects: not mixed with duplicates
+    mutating = bool(preout_pct) and chance(draw, preout_pct)
+    if mutating:
+        dups = False
+    kinds = EMBEDDINGS + (EMBEDDINGS_MUTATING * 3 if mutating else [])
     for j in range(n):
         ups = []
         if j:
             for _ in range(draw(st.integers(0, 3)) if chance(draw, up_pct) else 0):
-                ups.append([draw(st.integers(0, 6)), draw(st.sampled_from(EMBEDDINGS))])
+                ups.append([draw(st.integers(0, 6)), draw(st.sampled_from(kinds))])
         jt = []
         for ti, t in enumerate(toks):
             if chance(draw, tok_pct):
                 w = draw(st.integers(1, t["total"])) if hetero else 1
                 jt.append([ti, w])
         job = {
-            "cls": draw(st.integers(0, 2)),
+            "cls": draw(st.integers(1, 2) if mutating else st.integers(0, 2)),
             "ups": ups,
             "toks": jt,
             "code": draw(st.sampled_from([1, 2, 255])) if chance(draw, fail_pct) else 0,
@@ -82,6 +89,10 @@ def engine_cases(
                 extras.append(["facq", f, tj, draw(st.integers(1, toks[tj]["total"])), draw(st.booleans()), dies])
         if chance(draw, 25):
             extras.append(["fopen", draw(st.sampled_from(file_toks)), draw(st.booleans())])
+        if chance(draw, 30):
+            # another process trying to acquire at the very moment we do
+            ti = draw(st.sampled_from(file_toks))
+            extras.append(["frace", 7, ti, draw(st.integers(1, toks[ti]["total"]))])
     for e in extras:
         pos = draw(st.integers(0, len(plan)))
         plan.insert(pos, e)
@@ -92,6 +103,14 @@ def engine_cases(
     case = {"tokens": toks, "jobs": jobs, "plan": plan, "sched": sched}
     if runs2_pct and chance(draw, runs2_pct):
         case["runs"] = 2
+    elif stage2_pct and n >= 2 and chance(draw, stage2_pct):
+        # the last k jobs are submitted in a second experiment block of the same process
+        k = draw(st.integers(1, n - 1))
+        case["stage2"] = list(range(n - k, n))
+        case["plan"] = [op for op in plan if op[0] in ("submit", "wait")]
+        for jb in jobs:
+            jb.pop("adopt", None)
+            jb["toks"] = []
     return case
 
 
@@ -120,10 +139,12 @@ def classify(case, H):
         labels.append("pre-existing-done")
     if any(op[0] in ("dup", "resubmit") for op in case["plan"]):
         labels.append("dup-op")
-    if any(op[0] == "facq" for op in case["plan"]):
+    if any(op[0] in ("facq", "frace") for op in case["plan"]):
         labels.append("foreign-op")
     if case.get("runs", 1) > 1:
         labels.append("two-runs")
+    if case.get("stage2"):
+        labels.append("two-stages")
     labels.extend(sorted(n if ":" not in n or n.startswith("duplicate") else n.split(":")[0] for n in H.notes))
     # failure containment shapes
     eng = H.runs[0]
